@@ -62,7 +62,14 @@ func (v *vigil) BeginVigil() {
 
 func (v *vigil) CeaseVigil() {
 	atomic.AddInt64(&v.vigils, -1)
+	// Broadcast while holding the mutex the waiter checks the counter under.
+	// Without it the decrement and the broadcast can both fall between the
+	// waiter's check (still > 0) and its cond.Wait, and the wake-up is lost:
+	// WaitForActiveVigilsClosed - and the Destroy/Close behind it - then blocks
+	// forever although no operation is active any more.
+	v.cond.L.Lock()
 	v.cond.Broadcast()
+	v.cond.L.Unlock()
 }
 
 func (v *vigil) HasActiveVigils() bool {
